@@ -172,6 +172,14 @@ fn main() {
             let lines = o.finish();
             println!("{}: cases={} lines={} monitor_failures={}", cmd, n, lines, fails);
         }
+        "pause-upgrade" => {
+            circ::verif::ebr::set_tuning(64, 64);
+            let mut o = util::Out::create(&out);
+            let (mut props, mut fails) = (0u64, 0u64);
+            chain::pause_upgrade(&mut o, &mut props, &mut fails);
+            o.finish();
+            println!("pause-upgrade: property_checks={} property_failures={}", props, fails);
+        }
         "reg-leak" => {
             let (checks, _, fails) = regleak::run(&out, seed, thorough);
             println!("reg-leak: checks={} property_failures={}", checks, fails);
